@@ -107,7 +107,12 @@ class SetValidate(Contract):
         st = st.put(href.oid, HObj("tuple", self.H))
         self_ref = VRef(cx.new_oid())
         st = st.put(self_ref.oid, HObj("obj", None, "TraitCompound", {"handlers": href}))
-        conc = lambda m: dict(harness="cvalidators", family="compound_order")
+        def conc(m):
+            # which kind of disagreement the model shows: a slow alternative before a fast one, or a reordered descriptor
+            n = m.eval(z3.Length(self.H), model_completion=True).as_long()
+            flags = [z3.is_true(m.eval(is_fast(self.H[q]), model_completion=True)) for q in range(min(n, 6))]
+            slow_first = any((not flags[a]) and flags[b] for a in range(len(flags)) for b in range(a + 1, len(flags)))
+            return dict(harness="cvalidators", family="compound_slow_first" if slow_first else "compound_order", fast_flags=flags)
         return st, [self_ref], {}, dict(self_ref=self_ref, witness=dict(handlers=self.H), concretise=conc)
 
     def post(self, cx, I, ov, info, kind, payload, st):
@@ -135,6 +140,12 @@ class SetValidate(Contract):
             out.append(("post:fast-entries-in-declaration-order-then-one-slow-entry", entries == want))
         else:
             out.append(("post:descriptor-shape", z3.BoolVal(False)))
+        # the statement itself: the FIRST accepting alternative in declaration order wins.  The compiled compound tries
+        # every fast entry before the single trailing slow entry, so this needs: no slow alternative declared before a fast one.
+        i, j = z3.Ints("i!ord j!ord")
+        out.append(("post:trial-order-is-declaration-order", z3.ForAll([i, j], z3.Implies(
+            z3.And(0 <= i, i < j, j < n), z3.Not(z3.And(z3.Not(is_fast(H[i])), is_fast(H[j]))))),
+            dict(note="fails when a slow (Python-validated) alternative is declared before a fast one"), ("C03",)))
         return out
 
     def covers(self, cx, ov, info):
